@@ -77,8 +77,22 @@ Proof.
   rewrite Rabs_mult. rewrite (Rabs_right 360) by lra. lra.
 Qed.
 
-Lemma red360_congr x : exists k : Z, red360 x = x - 360 * IZR k.
-Proof. eexists. reflexivity. Qed.
+(* red360 x is x minus the explicit multiple 360 * Rround (x / 360), and it is THE representative of
+   x modulo 360 in (-180, 180): whenever x - 360 k lies strictly inside, red360 x is that number *)
+Lemma red360_unique x (k : Z) : Rabs (x - 360 * IZR k) < 180 -> red360 x = x - 360 * IZR k.
+Proof.
+  intros H. unfold red360. pose proof (Rround_half (x / 360)) as Hr.
+  assert (Rabs (x / 360 - IZR k) < 1 / 2) as Hk.
+  { replace (x / 360 - IZR k) with ((x - 360 * IZR k) / 360) by field.
+    unfold Rdiv. rewrite Rabs_mult, (Rabs_right (/ 360)) by lra. lra. }
+  assert (Rround (x / 360) = k) as ->; [|reflexivity].
+  assert (Rabs (IZR (Rround (x / 360)) - IZR k) < 1) as Hd.
+  { replace (IZR (Rround (x / 360)) - IZR k) with ((x / 360 - IZR k) - (x / 360 - IZR (Rround (x / 360)))) by ring.
+    eapply Rle_lt_trans; [apply Rabs_triang|]. rewrite Rabs_Ropp. lra. }
+  rewrite <- minus_IZR in Hd. apply Rabs_def2 in Hd. destruct Hd as [H1 H2].
+  apply lt_IZR in H1. assert (IZR (-1) < IZR (Rround (x / 360) - k)) as H3 by (simpl; lra).
+  apply lt_IZR in H3. lia.
+Qed.
 
 Lemma eot_minutes_bound x : Rabs (red360 x * 4) <= 720.
 Proof.
